@@ -12,11 +12,25 @@ import (
 	"verifharness/hx"
 )
 
-const Rule = "cases = (implementation, capacity 1-12 (thorough: up to 40), min/max comparator, op sequence) drawn from " +
+const Rule = "cases = (implementation, capacity 0-12 (thorough: up to 40), comparator min | max | a-b | 7*(b-a) | half, op sequence) drawn from " +
 	"VERIF_SEED: indices from [-2, cap+1] (so ~25% of index arguments are out of range or refer to a free/occupied " +
-	"slot the wrong way), keys from a small universe (dense ties), values from 5 letters, dense and sparse index " +
+	"slot the wrong way) and, 1 in 40, from the ends of the int range (-1, MinInt, MinInt+1, MaxInt, MaxInt-1, 2^31, 2^32, 2^62), " +
+	"keys from a small universe (dense ties), values from 5 letters, dense and sparse index " +
 	"sets, ChangeKey both up and down, DeleteIndex of root / leaf / middle entries, drain phases, DeleteAll; a " +
-	"state dump (heap/pos/kvs arrays, forests with parent links, marks and the nodes[] map) after ~1/3 of the ops; " +
+	"state dump (heap/pos/kvs arrays, forests with parent links, marks and the nodes[] map) after ~1/3 of the ops. " +
+	"The constructor is part of every case (a constructor that panics is the failing first operation). " +
+	"Size/zero families (every tier, from the corpus on): capacities 0, 1, 2, 3, 8, 64 with each of the five index operations on each of ~20 edge " +
+	"indices on the empty, half-filled, full and DeleteAll-ed heap; heaps of capacity exactly 63, 64, 65, 255, 256, 257, 1023, 1024 " +
+	"(thorough: 4095-4097) filled completely; heaps walked through 1, 2, 63-65, 255-257, 1023-1025 held entries (keys ascending / descending / " +
+	"all equal / random / of extreme magnitude MinInt..MaxInt; index order ascending / descending / random) with a battery of all queries at each size, a step back " +
+	"below each threshold and up again, a storm of ChangeKey / DeleteIndex at the peak and a drain through the same sizes; one heap of " +
+	"65535 / 65536 / 65537 / 70000 entries per implementation (thorough: all four, plus 4097 and 16385). " +
+	"At 65535+ entries the executable Models of the two LINKED heaps need minutes (they search their trees for a node), so those cases - and the " +
+	"thorough 2^14 thin-tree case - are judged by the Go oracle alone (extra.oracle_only_cases); the indexed binary heap is compared with its Model at every size. " +
+	"Thin Fibonacci trees: from the binomial tree left by 2^k+1 Inserts and one Delete (k = 3..10, thorough ..12 and 14), every non-root node " +
+	"loses its child of largest degree by DeleteIndex and what was cut off is deleted, until one tree of degree k holds F(k+2) entries - " +
+	"consolidate's table of floor(log_phi n)+1 slots then has none to spare (tag fib-degree-slack=0); then Insert+Delete at that size, a key " +
+	"decrease below a chain of marked ancestors (cascading cut), and a drain. " +
 	"non-trivial = the history held >= 3 entries at once and, while holding >= 3, executed a successful ChangeKey or " +
 	"DeleteIndex, followed later by a successful Delete or Peek, and for ifibonacci additionally a ChangeKey that " +
 	"cut a node out of its tree (root count rose; tag fib-cascading-cut = it rose by >= 2, i.e. a marked parent " +
@@ -181,7 +195,15 @@ func Exec(c hx.Case) (res hx.Result) {
 	}
 	ord := hx.HeaderGet(c.Header, "ord")
 	cmp := cmpFor(ord)
-	h := newHeap(comp, cap, cmp)
+	// the constructor is part of the history: "for indexed heaps of any capacity" includes capacity 0, and a
+	// constructor that panics ends the case at its first operation
+	var h heap.IndexedHeap[int, string]
+	if kind := hx.Try(func() { h = newHeap(comp, cap, cmp) }); kind != "" {
+		res.Outs = append(res.Outs, "panic")
+		bad(0, "", "the constructor of %s with capacity %d panicked (%s)", comp, cap, kind)
+		tags["panic"] = true
+		return res
+	}
 	if h == nil {
 		for range c.Ops {
 			res.Outs = append(res.Outs, "bad-case")
@@ -189,15 +211,47 @@ func Exec(c hx.Case) (res hx.Result) {
 		return res
 	}
 	tags["ord="+ord] = true
+	switch {
+	case cap == 0:
+		tags["cap=0"] = true
+	case cap <= 2:
+		tags["cap<=2"] = true
+	}
 
-	model := map[int]kv{} // the abstract partial map
+	model := map[int]kv{}      // the abstract partial map
+	keys := &keyBag{cmp: cmp}  // the held keys (one representative per entry), for extremality and ContainsKey
+	vals := map[string]int{}   // value -> number of held entries carrying it
 	extremal := func(k int) bool {
-		for _, e := range model {
-			if cmp(k, e.k) > 0 {
-				return false
+		fast := keys.extremal(k)
+		if len(model) <= 24 { // small states: the definition itself, entry by entry
+			slow := true
+			for _, e := range model {
+				if cmp(k, e.k) > 0 {
+					slow = false
+				}
 			}
+			if slow != fast {
+				bad(len(res.Outs), "", "harness: the two oracles of extremality disagree on key %d", k)
+			}
+			return slow
 		}
-		return true
+		return fast
+	}
+	put := func(idx int, e kv) {
+		if old, held := model[idx]; held {
+			keys.del(old.k)
+			vals[old.v]--
+		}
+		model[idx] = e
+		keys.add(e.k)
+		vals[e.v]++
+	}
+	drop := func(idx int) {
+		if old, held := model[idx]; held {
+			keys.del(old.k)
+			vals[old.v]--
+			delete(model, idx)
+		}
 	}
 	maxHeld := 0
 	armed, fired := false, false // non-trivial rule
@@ -218,22 +272,26 @@ func Exec(c hx.Case) (res hx.Result) {
 					bad(i, "", "Insert(%d) = %v, want %v (in range and free)", idx, got, want)
 				}
 				if want {
-					model[idx] = kv{k: k, v: v}
+					put(idx, kv{k: k, v: v})
 				}
 				if idx < 0 || idx >= cap {
 					tags["insert-out-of-range"] = true
 				} else if held {
 					tags["insert-occupied"] = true
 				}
+				tagIndex(tags, idx, cap)
 			case f[0] == "changekey" && len(f) == 3:
 				idx, k := atoi(f[1]), atoi(f[2])
 				old, held := model[idx]
 				rootsBefore := 0
-				if comp == "ifibonacci" && held && cmp(k, old.k) < 0 {
+				// counting the trees reads the whole forest: only on heaps of moderate size
+				watchCut := comp == "ifibonacci" && held && cmp(k, old.k) < 0 && len(model) <= 2048
+				if watchCut {
 					rootsBefore = fibRoots(h)
 				}
 				got := h.ChangeKey(idx, k)
-				if comp == "ifibonacci" && held && cmp(k, old.k) < 0 {
+				tagIndex(tags, idx, cap)
+				if watchCut {
 					// a key decrease never consolidates: every new tree in the root list is a node that was cut;
 					// two or more new trees = the cut cascaded into a marked parent
 					switch d := fibRoots(h) - rootsBefore; {
@@ -262,7 +320,7 @@ func Exec(c hx.Case) (res hx.Result) {
 							tags["changekey-equal-distinct-key"] = true
 						}
 					}
-					model[idx] = ne
+					put(idx, ne)
 					switch c := cmp(k, old.k); {
 					case c < 0:
 						tags["changekey-towards-root"] = true
@@ -300,7 +358,7 @@ func Exec(c hx.Case) (res hx.Result) {
 					case !extremal(k):
 						bad(i, "", "Delete returned key %d which is not extremal", k)
 					}
-					delete(model, idx)
+					drop(idx)
 					if armed {
 						fired = true
 					}
@@ -347,6 +405,7 @@ func Exec(c hx.Case) (res hx.Result) {
 					out = "ok none"
 				}
 				e, held := model[idx]
+				tagIndex(tags, idx, cap)
 				if ok != held {
 					bad(i, "", "DeleteIndex(%d) ok=%v, index held = %v", idx, ok, held)
 				} else if held && (!e.admits(k) || e.v != v) {
@@ -361,7 +420,7 @@ func Exec(c hx.Case) (res hx.Result) {
 					} else {
 						tags["deleteindex-inner"] = true
 					}
-					delete(model, idx)
+					drop(idx)
 				} else {
 					tags["deleteindex-unheld"] = true
 				}
@@ -369,10 +428,13 @@ func Exec(c hx.Case) (res hx.Result) {
 				h.DeleteAll()
 				out = "ok"
 				model = map[int]kv{}
+				keys = &keyBag{cmp: cmp}
+				vals = map[string]int{}
 				tags["deleteall"] = true
 			case f[0] == "peekindex" && len(f) == 2:
 				idx := atoi(f[1])
 				k, v, ok := h.PeekIndex(idx)
+				tagIndex(tags, idx, cap)
 				if ok {
 					out = fmt.Sprintf("ok some %d %s", k, v)
 				} else {
@@ -392,6 +454,7 @@ func Exec(c hx.Case) (res hx.Result) {
 			case f[0] == "containsindex" && len(f) == 2:
 				idx := atoi(f[1])
 				got := h.ContainsIndex(idx)
+				tagIndex(tags, idx, cap)
 				out = "ok " + strconv.FormatBool(got)
 				if _, held := model[idx]; got != held {
 					bad(i, "", "ContainsIndex(%d) = %v, index held = %v", idx, got, held)
@@ -400,10 +463,16 @@ func Exec(c hx.Case) (res hx.Result) {
 				k := atoi(f[1])
 				got := h.ContainsKey(k)
 				out = "ok " + strconv.FormatBool(got)
-				want := false
-				for _, e := range model {
-					if cmp(e.k, k) == 0 {
-						want = true
+				want := keys.has(k)
+				if len(model) <= 24 {
+					slow := false
+					for _, e := range model {
+						if cmp(e.k, k) == 0 {
+							slow = true
+						}
+					}
+					if slow != want {
+						bad(i, "", "harness: the two oracles of ContainsKey disagree on key %d", k)
 					}
 				}
 				if got != want {
@@ -412,12 +481,7 @@ func Exec(c hx.Case) (res hx.Result) {
 			case f[0] == "containsvalue" && len(f) == 2:
 				got := h.ContainsValue(f[1])
 				out = "ok " + strconv.FormatBool(got)
-				want := false
-				for _, e := range model {
-					if e.v == f[1] {
-						want = true
-					}
-				}
+				want := vals[f[1]] > 0
 				if got != want {
 					bad(i, "", "ContainsValue(%s) = %v, want %v", f[1], got, want)
 				}
@@ -442,6 +506,18 @@ func Exec(c hx.Case) (res hx.Result) {
 				if strings.Contains(d, "*") {
 					tags["marked-node"] = true
 				}
+				if comp == "ifibonacci" && len(model) >= 5 {
+					// how close the largest root degree is to the last slot of consolidate's table for this many
+					// entries (0 = a tree as thin as the bound allows)
+					if deg := fibMaxRootDegree(d); deg >= 0 {
+						switch slack := heap.VerifIndexedMaxDegree(len(model)) - 1 - deg; {
+						case slack <= 0:
+							tags["fib-degree-slack=0"] = true
+						case slack == 1:
+							tags["fib-degree-slack=1"] = true
+						}
+					}
+				}
 			}
 		})
 		if kind != "" {
@@ -458,6 +534,11 @@ func Exec(c hx.Case) (res hx.Result) {
 
 	if maxHeld >= 3 {
 		tags["held>=3"] = true
+	}
+	for _, t := range []int{64, 256, 1024, 65536} {
+		if maxHeld >= t {
+			tags["held>="+strconv.Itoa(t)] = true
+		}
 	}
 	if maxHeld == cap && cap > 0 {
 		tags["filled-to-capacity"] = true
@@ -507,12 +588,20 @@ func genOps(r *hx.Rand, g genCfg) []string {
 		pool = []int{g.cap - 1}
 	}
 	idx := func() int {
+		if r.Chance(1, 40) {
+			return hx.Pick(r, extremeIdx) // -1, MinInt, MaxInt, MaxInt-1, 2^31, ...
+		}
 		if r.Chance(1, 5) {
 			return r.Range(-2, g.cap+1)
 		}
 		return hx.Pick(r, pool)
 	}
-	key := func() int { return r.Intn(g.universe) }
+	key := func() int {
+		if r.Chance(1, 25) {
+			return -1 // below the universe (and the value the heaps use as "no index" / "no position")
+		}
+		return r.Intn(g.universe)
+	}
 	fill := true
 	phase := r.Range(2, 14)
 	for len(ops) < g.n {
@@ -544,7 +633,7 @@ func genOps(r *hx.Rand, g genCfg) []string {
 		case x < 81:
 			ops = append(ops, fmt.Sprintf("containsindex %d", idx()))
 		case x < 86:
-			ops = append(ops, fmt.Sprintf("containskey %d", r.Intn(g.universe+1)))
+			ops = append(ops, fmt.Sprintf("containskey %d", r.Range(-1, g.universe)))
 		case x < 90:
 			ops = append(ops, "containsvalue "+hx.Pick(r, append(letters, "z")))
 		case x < 93:
@@ -790,7 +879,7 @@ func Main(run *hx.Run) {
 		r := run.R.Fork(comp)
 		n := run.Scale(2500)
 		for k := 0; k < n; k++ {
-			cap := r.Range(1, 12)
+			cap := r.Range(0, 12)
 			if run.Thorough() && r.Chance(1, 5) {
 				cap = r.Range(13, maxCap)
 			}
@@ -851,6 +940,8 @@ func Main(run *hx.Run) {
 			}
 		}
 	}
+
+	hardFamilies(run)
 
 	if run.Thorough() {
 		// every history of length <= 6 over a 9-letter alphabet, cap 3 (index 3 is out of range), both orders
